@@ -102,8 +102,15 @@ class CondSpace:
             self.pairs[key] = True
 
     # ---- enumeration
+    def _numeric_subject(self, c):
+        return any(k[0] == "c" and k[1] in ("int", "float") for k in self.subj_consts.get(c, ()))
+
     def variables(self):
         vs = []
+        for c in self.free:
+            # a quantity that is compared with numbers and also used as a truth value: true iff it is not zero
+            if self._numeric_subject(c):
+                self.subj_consts[c].add(("c", "int", 0))
         for s, consts in self.subj_consts.items():
             nums = sorted({F(c[2]).limit_denominator(10**9) if c[2] not in (float("inf"), float("-inf")) else c[2]
                            for c in consts if c[0] == "c" and c[1] in ("int", "float")}, key=float)
@@ -178,6 +185,12 @@ class CondSpace:
         if h == "call" and strip(c[1]) == ("glob", "builtins.isinstance") and len(c[2]) == 2 and c[2][0] in self.subj_consts:
             # isinstance(x, T) cannot hold on a path where x is None
             reg = val[("subj", c[2][0])]
+            if reg == ("v", ("c", "NoneType", None)):
+                return False
+        if c in self.subj_consts and self._numeric_subject(c):
+            reg = val[("subj", c)]
+            if reg[0] == "n":
+                return reg[1] != 0
             if reg == ("v", ("c", "NoneType", None)):
                 return False
         return val[("free", c)]
@@ -329,6 +342,10 @@ def compare_trees(code, spec, leaf_eq, alias=None, assume=None, int_subjects=Non
                     m[key[1]] = ("const", "int", int(v)) if float(v) == int(float(v)) else ("const", "float", float(v))
                 elif (key[1], reg[1]) in space.singletons:
                     mr[key[1]] = ("const", "int", int(reg[1]))
+            elif key[0] == "subj" and head(key[1]) == "call" and strip(key[1][1]) == ("glob", "builtins.type") and len(key[1][2]) == 1 and reg[0] == "v" \
+                    and isinstance(reg[1], tuple) and reg[1][0] == "g" and reg[1][1] in ("builtins.list", "builtins.tuple", "builtins.str", "builtins.int", "builtins.float", "builtins.dict", "builtins.set"):
+                # on a path where type(x) is exactly T, the conversion T(x) yields an equal value
+                m[("call", ("glob", reg[1][1]), (key[1][2][0],), ())] = key[1][2][0]
         if m:
             from .terms import subst
             a, b = subst(strip_all(a), m), subst(strip_all(b), m)
